@@ -128,7 +128,19 @@ def rule_nested_prune(ctx):
 
 from .c11_wiring import rule_cast_extract, rule_wiring  # noqa: E402
 
+def rule_closure(ctx):
+    """C11.e = C10.f on the semi-structured rewrites: what a JSON stage builds is not something an earlier stage would still
+    rewrite (e.g. the extraction built for v['k'] must still get its parentheses and its ->> under a text cast)."""
+    from . import c11_wiring
+    from .c10 import CLOSURE_EXCEPTIONS
+    from .wiring import run_closure
+
+    n = run_closure(ctx, "C11.e", c11_wiring.cases(), CLOSURE_EXCEPTIONS)
+    ctx.floor("C11.e (product, earlier stage) pairs interpreted", n, 4)
+
+
 RULES = [
+    ("C11.e", rule_closure, ("quick", "thorough")),
     ("C11.d", rule_wiring, ("quick", "thorough")),
     ("C11.d2", rule_cast_extract, ("quick", "thorough")),
     ("C11.a", rule_order, ("quick", "thorough")),
